@@ -36,8 +36,9 @@ def main(argv=None):
     else:
         ok, log = C.build(clean=(a.tier == 'thorough' and os.environ.get('VERIF_CLEAN') == '1'))
     needed = getattr(mod, 'NEEDS', [])
+    skipped = log == 'build skipped'       # developer mode (VERIF_NOBUILD=1): only the existence of the compiled files is required
     missing = [n for n in needed if not (C.THEORIES / f'{n}.vo').exists()
-               or (C.THEORIES / f'{n}.vo').stat().st_mtime < (C.THEORIES / f'{n}.v').stat().st_mtime]
+               or (not skipped and (C.THEORIES / f'{n}.vo').stat().st_mtime < (C.THEORIES / f'{n}.v').stat().st_mtime)]
     run.oblige('build: ' + ', '.join(needed), not missing, ('not built: ' + ', '.join(missing) + '\n' + log[-1500:]) if missing else '')
 
     # 3. the property's theorems, re-checked, with Print Assumptions under each
